@@ -64,7 +64,7 @@ func gen(r *harn.Rng, tier string) interface{} {
 	}
 	if r.Bool(0.3) {
 		for j, n := 0, r.Range(1, 3); j < n; j++ {
-			op := dlOp{SleepUs: r.Pick(0, 0, 1, 20, 500), Kind: []string{"zero", "past", "future", "future"}[r.Intn(4)], DurUs: r.Pick(1, 10, 100, 500, 5000)}
+			op := dlOp{SleepUs: r.Pick(0, 0, 1, 20, 500), Kind: []string{"zero", "past", "future", "future", "unix0"}[r.Intn(5)], DurUs: r.Pick(1, 10, 100, 500, 5000)}
 			sc.Deadline = append(sc.Deadline, op)
 		}
 	}
@@ -234,6 +234,9 @@ func run(env *simrt.Env, sci interface{}) {
 					lastDeadlineZero = true
 				case "past":
 					_ = b.SetReadDeadline(env.Now().Add(-time.Second))
+					lastDeadlineZero = false
+				case "unix0":
+					_ = b.SetReadDeadline(time.Unix(0, 0)) // 1970-01-01 00:00:00 UTC: a passed deadline, not "none"
 					lastDeadlineZero = false
 				default:
 					_ = b.SetReadDeadline(env.Now().Add(time.Duration(op.DurUs) * time.Microsecond))
